@@ -476,7 +476,10 @@ def repo_tests_under_contracts(ctx):
     ctx.count("repo_tests_contract_evaluations", res["evaluations"])
     ctx.evaluations += res["evaluations"]
     ctx.extra["repo_tests"] = {"summary": (p.stdout.strip().splitlines() or ["?"])[-1], "evaluations_per_function": res["per_function"]}
+    ctx.extra["repo_tests"]["slot_checks"] = res.get("slot_checks", 0)
     for v in res["violations"][:5]:
+        if v.get("kind") == "slots":
+            continue  # C16's subject (its check runs the same plugin)
         ctx.violation("frame-in-repo-tests", "a frame contract fired while the repository's own tests ran: " + v["what"], v)
     if p.returncode != 0 and not res["violations"]:
         raise RuntimeError("the repository's tests failed under the (passive) contracts: " + (p.stdout + p.stderr)[-1500:])
